@@ -64,7 +64,7 @@ func Spec() *evid.Spec {
 		Rule: "lane sites: per case 1000 keys (random 48-byte keys; structured: every residue of the leading bytes, all-zero, all-ff, keys differing only after byte 5, the world's real validator keys; " +
 			"malformed keys of every length 0..47): publish topic (message id built from the key), subscribe topic, accept verdict of the real validator on the own topic, on neighbouring / random other topics " +
 			"and (every 64th key and every structured key) on all 128 topics; lane codec: envelope round trips (payload 0..64 KiB, operator ids 0,1,2^64-1,random, 256-byte signatures) + refusals of short inputs, " +
-			"subnet vector round trips (128 single-bit, empty, full, random). non-trivial = a key whose three sites were all observed / a round trip performed; distinct = key / vector / (payload size class, id class)",
+			"subnet vector round trips (128 single-bit, empty, full, random); lane conc (race detector): 6 goroutines call the subnet-string, topic and envelope functions on their own inputs at once, every result compared with the reference computation. non-trivial = a key whose three sites were all observed / a round trip performed; distinct = key / vector / (payload size class, id class)",
 		Assumptions: []string{
 			"documented mapping used as reference for the range clause: subnet = (first ten hex characters of the key as an integer) mod 128, topic = ssv.v2.<subnet>",
 			"subnet strings are little-endian bit vectors (bit j of byte i = subnet 8i+j), as the ENR entry of the network",
@@ -75,6 +75,7 @@ func Spec() *evid.Spec {
 		Lanes: []evid.Lane{
 			{Name: "sites", Children: evid.Const(16, 16), Cases: evid.Const(130, 1300), TimeoutS: evid.Const(900, 7200), Setup: setup, Run: runSites(false)},
 			{Name: "codec", Children: evid.Const(16, 16), Cases: evid.Const(700, 7000), TimeoutS: evid.Const(600, 3600), Run: runCodec},
+			{Name: "conc", Race: true, Children: evid.Const(8, 16), Cases: evid.Const(40, 600), TimeoutS: evid.Const(600, 3600), Run: runConc},
 		},
 	}
 	if hook() != nil {
